@@ -893,7 +893,12 @@ class GenEval(AutoEvaluator):
         root, rows, col = base, ALLM, ALLM
         if u is not None and u[0] == "ref":
             root, rows, col = u[1]
-        if len(comps) == 1:
+        elif self._view_triple(base) is not None:
+            root, rows, col = self._view_triple(base)       # a column bound to a local: `col = V[:, i]; col[:] = ...`
+        comps = [c for c in comps if symname(c) != "Ellipsis"]
+        if not comps:
+            pass
+        elif len(comps) == 1:
             r = comps[0]
             if not is_all(r):
                 rows = r if is_all(rows) else F.fn("sub", rows, r)
